@@ -606,7 +606,7 @@ func runC16(r *Run) {
 		r.atLeast("store-session mutations", n, 2)
 	})
 
-	r.rule("R12", "a token's lifetime ends: the storage manager's default backend (internal/memory) keeps expiry 0 for entries that never expire; in its Set the branch that leaves the expiry at 0 is taken on the lifetime argument itself being zero or not positive — not on its truncation to whole seconds, which is also 0 for every IdleTimeout below one second (configDefault accepts any positive duration) and would keep such a token valid for ever (E1: the value the guard compares; shared with C15-R11)", func() {
+	r.rule("R13", "a token's lifetime ends: the storage manager's default backend (internal/memory) keeps expiry 0 for entries that never expire; in its Set the branch that leaves the expiry at 0 is taken on the lifetime argument itself being zero or not positive — not on its truncation to whole seconds, which is also 0 for every IdleTimeout below one second (configDefault accepts any positive duration) and would keep such a token valid for ever (E1: the value the guard compares; shared with C15-R11)", func() {
 		neverExpiresOnlyForNoLifetimeRule(r, []string{"internal/memory"}, 1, "a csrf token issued with a sub-second IdleTimeout never expires in the bundled memory store: an unsafe request carrying a token that should be dead reaches the handler")
 	})
 
